@@ -224,6 +224,11 @@ func Depth1() []*Spec {
 	out = append(out, &Spec{Kind: KObject, ID: "One", Props: []Prop{{Name: "only", Type: &Spec{Kind: KInt, Min: I64(0)}, Required: true}}})
 	out = append(out, &Spec{Kind: KObject, ID: "Dis", Props: []Prop{{Name: "on", Type: &Spec{Kind: KString}}, {Name: "off", Type: &Spec{Kind: KString}, Disabled: true}}})
 	out = append(out, &Spec{Kind: KObject, ID: "Empty"})
+	out = append(out, &Spec{Kind: KObject, ID: "Enums", Props: []Prop{
+		{Name: "ei", Type: &Spec{Kind: KIntEnum, EnumI: []int64{1, 2}}, Required: true},
+		{Name: "es", Type: &Spec{Kind: KStrEnum, EnumS: []string{"a", "b"}}},
+		{Name: "le", Type: &Spec{Kind: KList, Item: &Spec{Kind: KList, Item: &Spec{Kind: KIntEnum, EnumI: []int64{1, 2}}}}},
+	}})
 	out = append(out, ShapeSpecs()...)
 	out = append(out, OneOfSpecs()...)
 	out = append(out, ScopeSpecs()...)
